@@ -86,6 +86,62 @@ fn verdict(x: Result<RecursivePageTable, InvalidPageTable>) -> u8 {
         Err(InvalidPageTable::NotRecursive) => 3,
     }
 }
+/// The address-form half of `new` for ALL 512 recursive indices, including the kernel-half ones whose tables cannot exist in a
+/// user process: `new` runs in a forked child on a reference to (R,R,R,R) - or to an address with one index off by one. An address
+/// of recursive form must be accepted as far as the first hardware access (reading the slot or the root register: the child dies
+/// from the fault); an address of any other form is answered NotRecursive without any access.
+pub fn ctor_form_all_indices(r: &mut Rep) {
+    use x86_64::structures::paging::PageTable;
+    for ri in 0..512u64 {
+        let mut cands: Vec<(u64, bool)> = vec![(va4(ri, ri, ri, ri), true)];
+        for pos in 0..4 {
+            let mut ix = [ri; 4];
+            ix[pos] = (ri + 1) % 512;
+            cands.push((va4(ix[0], ix[1], ix[2], ix[3]), false));
+            if ri % 64 == 0 || ri >= 510 {
+                let mut ix = [ri; 4];
+                ix[pos] = (ri + 511) % 512;
+                cands.push((va4(ix[0], ix[1], ix[2], ix[3]), false));
+            }
+        }
+        for (addr, recursive_form) in cands {
+            r.ev(true);
+            let outcome: i32 = unsafe {
+                let pid = libc::fork();
+                if pid == 0 {
+                    libc::signal(libc::SIGSEGV, libc::SIG_DFL);
+                    libc::signal(libc::SIGBUS, libc::SIG_DFL);
+                    libc::signal(libc::SIGILL, libc::SIG_DFL);
+                    libc::signal(libc::SIGTRAP, libc::SIG_DFL);
+                    let t: &mut PageTable = &mut *(addr as *mut PageTable);
+                    let v = verdict(RecursivePageTable::new(t));
+                    libc::_exit(10 + v as i32);
+                }
+                if pid < 0 {
+                    -1
+                } else {
+                    let mut st: i32 = 0;
+                    libc::waitpid(pid, &mut st, 0);
+                    if libc::WIFSIGNALED(st) { 1000 + libc::WTERMSIG(st) } else if libc::WIFEXITED(st) { libc::WEXITSTATUS(st) } else { -2 }
+                }
+            };
+            let case = format!("ctorform {} {:#x}", ri, addr);
+            if outcome < 0 {
+                r.viol("C20|RecursivePageTable::new|machinery-fork-failed", &case, "");
+                return;
+            }
+            let mapped_here = outcome >= 10 && outcome < 1000 && recursive_form; // some mapping of this process happens to live there
+            if recursive_form && outcome == 13 {
+                r.viol("C20|RecursivePageTable::new|recursive-form-address-reported-NotRecursive", &case, "returned NotRecursive without looking at the slot");
+            } else if recursive_form && !mapped_here && outcome < 1000 {
+                r.viol("C20|RecursivePageTable::new|verdict-without-reading-slot-or-root-register", &case, &format!("exit {}", outcome));
+            } else if !recursive_form && outcome != 13 {
+                r.viol("C20|RecursivePageTable::new|address-of-non-recursive-form-not-answered-NotRecursive", &case, &format!("outcome {}", outcome));
+            }
+        }
+    }
+}
+
 /// construct; switch the root; construct; switch back; construct — kept in a small function of its own so that the optimiser
 /// sees the whole sequence at once (what it may or may not carry across the root write is exactly what is being checked)
 #[inline(never)]
@@ -300,6 +356,7 @@ pub fn run(a: &Args) {
     if let Some(c) = &a.replay {
         let t: Vec<&str> = c.split_whitespace().collect();
         match t[0] {
+            "ctorform" => ctor_form_all_indices(&mut r),
             "rectab" => addr_case(&mut r, t[1].parse().unwrap(), t[2].parse().unwrap(), t[3].parse().unwrap(), t[4].parse().unwrap(), t[5].parse().unwrap()),
             _ => ctor(&mut r, t[1].parse().unwrap(), t.get(2).map(|x| u64::from_str_radix(x.trim_start_matches("0x"), 16).unwrap()).unwrap_or(0)),
         }
@@ -314,6 +371,9 @@ pub fn run(a: &Args) {
         r.sample(format!("ctor {} addr=(R,R,R,R+1) cr3=level-4 frame slot=present->same -> NotRecursive", ri));
     } else {
         addr_sweep(&mut r, a);
+        if a.shard == 1 % a.nshards {
+            guarded(&mut r, "C20|RecursivePageTable::new|unexpected-panic", || "ctorform".into(), |r| ctor_form_all_indices(r));
+        }
         r.part = "table-addresses".into();
         r.exhaustive = true;
         r.sample("rectab 511 256 0 511 1 -> p2 table page = sext(511<<39 | 511<<30 | 256<<21 | 0<<12)".into());
